@@ -140,6 +140,7 @@ def jobs(tier):
         for via in ('method', 'wrapper'):
             for md_cfg in ((False, False, False), (True, True, True), (True, False, False), (False, True, False)):
                 out.append(('concat', (axis, 2, md_cfg, via)))
+                out.append(('concat', (axis, 1, md_cfg, via)))       # k = 1: nothing to append
                 if tier != 'quick' or (via == 'method' and md_cfg in ((False, False, False), (True, False, True))):
                     out.append(('concat', (axis, 3, md_cfg, via)))
         out.append(('not_disjoint', (axis,)))
